@@ -2,3 +2,4 @@ import LithiumProofs.Rmslice
 import LithiumProofs.Lines
 import LithiumProofs.Load
 import LithiumProofs.Symbol
+import LithiumProofs.World
